@@ -1,5 +1,5 @@
 (** C01 — the theorems that Properties/C01.v states, per implementation. *)
-From Algo.C01 Require Import Model Spec SpecFacts ProofsQuery ProofsRun ProofsBST ProofsAVL ProofsRB.
+From Algo.C01 Require Import Model Spec SpecFacts ProofsQuery ProofsRun ProofsBST ProofsAVL ProofsRB ProofsRBDel.
 From Coq Require Import Lia Permutation.
 Open Scope Z_scope.
 Arguments inorder {K V} n : simpl never.
@@ -104,4 +104,75 @@ Section All.
     exists t, build cmp RB h = Ok t /\ inorder t = s_build cmp h /\ rb_ok cmp t.
   Proof. intros HA. exact (build_ok cmp RB _ _ (rb_refines_put cmp TO) h HA). Qed.
 
+  (** red-black, every history *)
+  Theorem rb_run_ok (ops : list (op K V)) :
+    forallb abstract_op ops = true -> run cmp eqv RB ops = map Ok (spec_run cmp eqv ops).
+  Proof.
+    intros HA. eapply run_ok; eauto using rb_refines. apply all_allowed.
+  Qed.
+
+  Theorem rb_build_inv (h : list (mut K V)) :
+    exists t, build cmp RB h = Ok t /\ inorder t = s_build cmp h /\ rb_ok cmp t.
+  Proof. exact (build_ok cmp RB _ _ (rb_refines cmp TO) h (forallb_true h)). Qed.
+
+  (** the three implementations at once *)
+  Definition inv_of (i : impl) : tree K V -> Prop :=
+    match i with BST => bst_inv cmp | AVL => avl_ok cmp | RB => rb_ok cmp end.
+
+  Lemma refines_all (i : impl) : Refines cmp i (inv_of i) (fun _ => true).
+  Proof. destruct i; [apply bst_refines|apply avl_refines|apply rb_refines]; exact TO. Qed.
+
+  Theorem run_ok_all (i : impl) (ops : list (op K V)) :
+    forallb abstract_op ops = true -> run cmp eqv i ops = map Ok (spec_run cmp eqv ops).
+  Proof. intros HA. eapply run_ok; eauto using refines_all. apply all_allowed. Qed.
+
+  Theorem firstmatch_all (i : impl) (h : list (mut K V)) p :
+    exists t, build cmp i h = Ok t /\
+      match first_match p t with
+      | Some e => In e (s_build cmp h) /\ holds p e = true
+      | None => forall e, In e (s_build cmp h) -> holds p e = false
+      end.
+  Proof. eapply firstmatch_generic; [apply refines_all|apply forallb_true]. Qed.
+
+  Theorem traversal_all (i : impl) (h : list (mut K V)) o :
+    o <> OtherOrder ->
+    exists t, build cmp i h = Ok t /\ Permutation (trav_list o t) (s_build cmp h).
+  Proof. intros. eapply traversal_generic; [apply refines_all|apply forallb_true|auto]. Qed.
+
+  Theorem build_all (i : impl) (h : list (mut K V)) :
+    exists t, build cmp i h = Ok t /\ inorder t = s_build cmp h /\ sorted cmp (inorder t) /\ sizes_ok t.
+  Proof.
+    destruct (build_ok cmp i _ _ (refines_all i) h (forallb_true h)) as [t [E1 [E2 I]]].
+    exists t. split; [exact E1|]. split; [exact E2|].
+    split; [exact (inv_sorted _ _ _ _ (refines_all i) t I)|exact (inv_sizes _ _ _ _ (refines_all i) t I)].
+  Qed.
+
 End All.
+
+(** ** the comparators of the harness satisfy the laws *)
+Lemma cmp_asc_total : TotalOrder cmp_asc.
+Proof.
+  constructor; unfold cmp_asc; intros.
+  - now rewrite Z.compare_refl.
+  - rewrite (Z.compare_antisym a b). destruct (a ?= b); simpl; lia.
+  - destruct (Z.compare_spec a b), (Z.compare_spec b c), (Z.compare_spec a c); lia.
+Qed.
+
+Lemma cmp_desc_total : TotalOrder cmp_desc.
+Proof.
+  constructor; unfold cmp_desc; intros.
+  - now rewrite Z.compare_refl.
+  - rewrite (Z.compare_antisym a b). destruct (a ?= b); simpl; lia.
+  - destruct (Z.compare_spec a b), (Z.compare_spec b c), (Z.compare_spec a c); lia.
+Qed.
+
+Lemma cmp_diff_total : TotalOrder cmp_diff.
+Proof. constructor; unfold cmp_diff; intros; lia. Qed.
+
+Lemma cmp_half_total : TotalOrder cmp_half.
+Proof.
+  constructor; unfold cmp_half; intros.
+  - apply (cmp_refl cmp_asc_total).
+  - apply (cmp_antisym cmp_asc_total).
+  - eapply (cmp_trans cmp_asc_total); eauto.
+Qed.
